@@ -64,6 +64,7 @@ class PhaseB:
         self.prog = prog
         self.ctx = ctx
         self.fcls = prog.cls(CTX)
+        self.violation_entries = {}
         bb = prog.cls("BlockBase")
         bv = prog.cls("BlockVector")
 
@@ -282,6 +283,7 @@ class PhaseB:
 
     def violation(self, f, u, chain, why):
         k = (f.fq, u.kind, " ".join(src(u.node).split()))
+        self.violation_entries.setdefault(k, set()).add((chain[0][0] if chain else f).fq)
         if k not in self.violations:
             self.violations[k] = (f, u, self.describe_chain(chain, f), why)
 
@@ -749,6 +751,51 @@ def check_rebuild(prog, ctx):
     ctx.minimum(rid, 5, "transpose (2 forms), phase_flip, dagger, _map_blocks")
 
 
+def _stmt_line(prog, file, line):
+    """first line of the innermost statement of `file` that spans `line`"""
+    mod = next((m for m in prog.modules.values() if m.relpath == file), None)
+    if mod is None:
+        return None
+    best = None
+    for n in ast.walk(mod.tree):
+        if isinstance(n, ast.stmt) and n.lineno <= line <= (n.end_lineno or n.lineno):
+            if best is None or (n.lineno, -(n.end_lineno or n.lineno)) >= (best.lineno, -(best.end_lineno or best.lineno)):
+                best = n
+    return None if best is None else best.lineno
+
+
+def refute_candidates(prog, ctx, ntwins, reached, via):
+    """The typestate rules over-approximate: a form they do not recognise is reported as a *candidate* "pending signs may
+    reach statement S from entry point E".  R09.5 evaluates the entry points on arrays that do carry pending signs.  A
+    candidate is refuted, and becomes a note, when for every entry point E it was derived from there is a twin evaluation in
+    which E was entered with pending signs on an operand, S was executed inside that call, the evaluation ran to a result
+    on both twins and the results agree (the construct is sign-even, or the operand had been synchronised through a form
+    the typestate does not track).  A candidate in code the twins never reach that way (the factorisations, code with a
+    user callable, statements only executed on arrays without pending signs), and every candidate when some twin
+    differs, stays a finding."""
+    if reached is None:
+        return
+    keep, dropped = [], []
+    for f in ctx.findings:
+        ok = False
+        if f.rule in ("R09.1", "R09.2", "R09.4"):
+            line = _stmt_line(prog, f.file, f.line)
+            ents = via.get(f.key())
+            if ents is None:
+                # rules about one function: the entry is any fermionic frame that was running it
+                fn = next((g for g in prog.funcs.values() if g.file == f.file and g.qualname == f.qualname), None)
+                ents = {fn.fq} if fn is not None else set()
+            ok = bool(ents) and all((e, f.file, line) in reached for e in ents)
+        (dropped if ok else keep).append(f)
+    ctx.findings[:] = keep
+    for f in dropped:
+        for o in ctx.obligations:
+            if not o["ok"] and o["rule"] == f.rule and o["where"] == f"{f.file}:{f.qualname}" and o["what"] == " ".join(str(f.message).split()):
+                o["ok"] = True
+                o["what"] = f"candidate refuted by R09.5 (twin evaluations enter with pending signs, execute this statement and agree): " + o["what"]
+        ctx.notes.append(f"{f.rule} candidate at {f.file}:{f.line} ({f.qualname}) refuted by the twin evaluations: {f.message[:140]}")
+
+
 def run(prog, ctx):
     ctx.rule("R09.4", "a sign table that is rebuilt carries every pending sign: copy, unfiltered comprehension over the old table, or a "
              "loop in which every path reads the old sign of its sector")
@@ -760,7 +807,7 @@ def run(prog, ctx):
              "array with pending signs and on its phase_sync()-ed twin")
     from rules.sem_lazy import check_lazy_equivalence
 
-    check_lazy_equivalence(prog, ctx)
+    ntwins, reached = check_lazy_equivalence(prog, ctx)
     for q, why in sorted(RAW_OK.items()):
         ctx.fact(f"{q}: {why}")
     for q, why in sorted(DECOMP_OK.items()):
@@ -783,10 +830,13 @@ def run(prog, ctx):
                    f"entry with lazy operand(s) {sorted(lazy)}: no raw use reachable without phase_sync")
     for k, (f, u, why) in sorted(pb.ok_uses.items()):
         ctx.ok("R09.1", f"{f.file}:{f.qualname}", f"{why}: {' '.join(src(u.node).split())[:100]}")
+    via = {}
     for k, (f, u, chain, why) in sorted(pb.violations.items()):
         ctx.bad("R09.1", f, u.node, " ".join(src(u.node).split())[:160], f"{why}; reached via {chain}")
+        via[ctx.findings[-1].key()] = pb.violation_entries[k]
     ctx.notes.append(f"{len(ents)} entry points, {len(pb.cache)} functions analysed, {pb.visited_calls} lazy call edges followed")
     ctx.minimum("R09.1", 80, "entry points + equivariant sites")
     check_mirrors(prog, ctx)
     check_consume(prog, ctx)
     check_rebuild(prog, ctx)
+    refute_candidates(prog, ctx, ntwins, reached, via)
